@@ -295,7 +295,7 @@ fn cases(tier: Tier) -> Vec<Case> {
         push(&mut v, 2, vec![vec![B::Sub(0, 1), p, B::Sub(1, 1), B::Pub(1, 42)]], None);
     }
     // two clients: subscriber management racing with publishing
-    let b2 = if q { Some(3) } else { None };
+    let b2: Option<u32> = if q { Some(5) } else { None };
     for p in pubs(41) {
         let n = if matches!(p, B::PubCtx(..)) { 2 } else { 1 };
         push(&mut v, n, vec![vec![B::Sub(0, 1), p], vec![B::Pub(1, 42)]], b2);
@@ -307,7 +307,7 @@ fn cases(tier: Tier) -> Vec<Case> {
         push(&mut v, n, vec![vec![B::Sub(0, 1), B::StopSub(0)], vec![p, B::Pub(1, 42)]], b2);
     }
     // two subscribers and two publishers: the common order
-    let b3 = if q { Some(2) } else { Some(4) };
+    let b3 = if q { Some(3) } else { Some(5) };
     for p in pubs(41) {
         for r in [B::Pub(1, 42), B::PubAddr(1, 42)] {
             push(&mut v, 2, vec![vec![B::Sub(0, 1), B::Sub(1, 1), p], vec![r]], b3);
